@@ -39,7 +39,7 @@ func main() {
 			"half of the runs with engine hooks; a program is non-trivial when it handled >= 20 events of both classes, had at least one handler entered while another was running and " +
 			"contained a same-instant child; distinct by (GOMAXPROCS, program seed)",
 		Assumptions: []string{
-			"all events are scheduled before Run or from inside handlers, at times >= the handler's event time",
+			"all events are scheduled before Run or from inside handlers, at times >= the handler's event time; in a third of the runs a driver goroutine also schedules primaries for CurrentTime() while it holds Pause",
 			"a primary scheduled by a secondary at the secondary's own instant cannot precede the secondaries of that instant that already started (no engine can do that); it is exempt from the phase rule but not from the time rule nor from exactly-once",
 			"'unfinished' = handed to Schedule (or about to be) and its handler has not reached its last statement",
 		},
@@ -61,7 +61,7 @@ func main() {
 		},
 		Run:         run,
 		RaceKey:     raceKey,
-		MustObserve: []string{"events_handled", "handler_entries_while_another_handler_was_running", "secondary_entries_checked_against_primaries", "same_instant_children", "late_primaries(scheduled_by_a_secondary_of_the_instant)", "programs_with_several_entry_orders", "runs_with_hooks", "secondaries_scheduled_after_a_late_primary_of_their_instant"},
+		MustObserve: []string{"events_handled", "handler_entries_while_another_handler_was_running", "secondary_entries_checked_against_primaries", "same_instant_children", "late_primaries(scheduled_by_a_secondary_of_the_instant)", "programs_with_several_entry_orders", "runs_with_hooks", "secondaries_scheduled_after_a_late_primary_of_their_instant", "primaries_injected_under_pause_at_current_time"},
 		BatchTimeout: func(tier string) time.Duration {
 			if tier == "thorough" {
 				return 40 * time.Minute
@@ -327,6 +327,7 @@ func run(b kit.Batch, r *kit.R) {
 		failed := false
 		for rep := 0; rep < prm.Repeats; rep++ {
 			hooked := (rep+hookedFirst)%2 == 0
+			total := total
 			m := &monitor{p: p, eng: timing.NewParallelEngine(), unfinished: map[uint64]ev{}, seqOf: map[uint64]uint64{}, byTime: map[uint64]*tcount{},
 				handled: map[uint64]int{}, hookBefore: map[uint64]int{}, hookAfter: map[uint64]int{}, fails: map[string]string{}}
 			for i := 0; i < p.H; i++ {
@@ -345,7 +346,58 @@ func run(b kit.Batch, r *kit.R) {
 				m.mu.Unlock()
 				m.eng.Schedule(e)
 			}
-			err := m.eng.Run()
+			// In a third of the runs a driver goroutine does what the live monitor's tick endpoint does: Pause,
+			// schedule a primary event for CurrentTime(), Continue. No round is in progress under a pause, so
+			// such an event is an ordinary primary of its instant for the time rule and the phase rule.
+			inject := rng.Intn(3) == 0
+			nInj := 0
+			var err error
+			if !inject {
+				err = m.eng.Run()
+			} else {
+				done := make(chan error, 1)
+				go func() { done <- m.eng.Run() }()
+				finished := false
+				gap := []int{0, 50, 500, 5000}[rng.Intn(4)]
+				for k := 0; k < 60 && !finished; k++ {
+					for y := rng.Intn(3); y > 0; y-- {
+						runtime.Gosched()
+					}
+					if gap > 0 {
+						for i, n := 0, rng.Intn(gap); i < n; i++ {
+							sink += uint64(i)
+						}
+					}
+					select {
+					case err = <-done:
+						finished = true
+						continue
+					default:
+					}
+					m.eng.Pause()
+					e := ev{uid: h2(0x1ec7ed, uint64(k)), t: uint64(m.eng.CurrentTime()), h: k % p.H, fuel: 1}
+					m.mu.Lock()
+					m.addLocked(e)
+					m.mu.Unlock()
+					m.eng.Schedule(e)
+					m.eng.Continue()
+					nInj++
+				}
+				if !finished {
+					err = <-done
+				}
+				// an event injected after the run loop had found its queues empty belongs to the next Run
+				m.mu.Lock()
+				left := len(m.unfinished)
+				m.mu.Unlock()
+				if left > 0 && err == nil {
+					r.Count("further_runs_for_events_injected_as_the_run_ended", 1)
+					err = m.eng.Run()
+				}
+				total += nInj
+				r.Count("runs_with_a_pausing_injector", 1)
+				r.Count("primaries_injected_under_pause_at_current_time", int64(nInj))
+			}
 
 			m.mu.Lock()
 			if err != nil {
